@@ -76,7 +76,10 @@ struct Hist {
         if (!ok) return;
         std::string in = "op=allocate,n=" + std::to_string(n) + ",sizeofT=" + std::to_string(sizeof(T)) + ",A=" + std::to_string(A);
         if (n > 0 && p == nullptr) { viol("null", cls, -1, in, "nullptr", "storage"); return; }
-        if (p == nullptr) return;  // n == 0 may return null
+        if (p == nullptr) {        // n == 0 may return null; the pointer is still passed once to deallocate(p, 0) later
+            live.push_back(Live{nullptr, 0, 0, next_id++});
+            return;
+        }
         if (((uintptr_t)p % A) != 0) viol("misaligned", cls, -1, in + ",ptr_mod_A=" + std::to_string((uintptr_t)p % A), hex((uint64_t)(uintptr_t)p), "multiple of A");
         Live l{(unsigned char*)p, n, n * sizeof(T), next_id++};
         for (const Live& o : live) {
